@@ -33,7 +33,7 @@ META = {
     },
 }
 CASES = {'quick': 1000, 'thorough': 50000}
-SECONDS = {'quick': 60, 'thorough': 600}
+SECONDS = {'quick': 300, 'thorough': 600}
 
 
 def pair_instances(lang, am):
